@@ -109,7 +109,7 @@ func (e *Eng) step(fr *Frame, st *State, instr ssa.Instruction) {
 		e.setTaint(fr, in, in.X)
 	case *ssa.IndexAddr:
 		fr.vals[in] = e.indexAddr(fr, st, in)
-		e.setTaint(fr, in, in.X, in.Index)
+		e.setTaint(fr, in, in.X)
 	case *ssa.Index:
 		fr.vals[in] = e.index(fr, st, in)
 		e.setTaint(fr, in, in.X, in.Index)
@@ -152,7 +152,7 @@ func (e *Eng) step(fr *Frame, st *State, instr ssa.Instruction) {
 		}
 	case *ssa.Slice:
 		fr.vals[in] = e.slice(fr, st, in)
-		e.setTaint(fr, in, in.X, in.Low, in.High, in.Max)
+		e.setTaint(fr, in, in.X)
 	case *ssa.Store:
 		p := e.val(fr, in.Addr).(*PtrV)
 		v := e.val(fr, in.Val)
@@ -196,6 +196,12 @@ func (e *Eng) step(fr *Frame, st *State, instr ssa.Instruction) {
 
 func (e *Eng) setTaint(fr *Frame, v ssa.Value, ops ...ssa.Value) {
 	if !fr.pure {
+		return
+	}
+	// "old" is a property of references (through which memory is read); scalars computed in the old
+	// state are plain values
+	switch under(v.Type()).(type) {
+	case *types.Basic:
 		return
 	}
 	for _, o := range ops {
@@ -487,6 +493,10 @@ func (e *Eng) unop(fr *Frame, st *State, in *ssa.UnOp) Val {
 		if !fr.pure {
 			e.assume(st, e.wf(in.Type(), v))
 			e.assumeValAllocated(fr, st, in.Type(), v)
+		} else if fr.side != nil {
+			if w := e.wf(in.Type(), v); w != "true" {
+				*fr.side = append(*fr.side, w)
+			}
 		}
 		return v
 	case token.ARROW:
